@@ -509,3 +509,45 @@ Print Assumptions C01_src_set_defaults.
 Print Assumptions C01_src_init_defaults_selected.
 Print Assumptions C01_src_init_extras_first.
 Print Assumptions C01_src_init_order_witness.
+
+(* ------------------------------------------------------------------ the constructor, continued: signature order, constants
+   (1) UNCONDITIONAL in the order of the keywords: whatever permutation of the declared keywords the signature lists,
+       the source's __init__ is [construct_sig] = [construct] with the declared keywords assigned in that order
+       (and [construct_sig] is [construct] when the caller wrote them in that order).
+   (2) Constant fields (model extension Struct/InitConstModel.v [construct_k]; [construct_k] without constants is
+       [construct]): a constant named by the caller is refused, the others are assigned after the extra keywords and
+       before the defaults. *)
+From Coq Require Import Permutation.
+From TP Require Import Struct.InitConstModel Struct.InitConstProofs Struct.InitOrderProofs.
+
+Theorem C01_src_init_sig_order :
+  forall (re_match : N -> pystr -> bool) (e : env) (msg_of : pystr -> pyval -> exn -> pystr)
+         (bind_msg hook_msg : pystr) (repr_str : pystr -> pystr) (dumps : list pystr -> pystr)
+         (sig_order : kwargs -> kwargs) (c : classdef) (kw : kwargs),
+    init_dom c kw = true -> Permutation (bound_of c kw) (sig_order (bound_of c kw)) ->
+    view c (Structure__init (init_heap c true)
+              (MW re_match e msg_of bind_msg hook_msg repr_str dumps sig_order c) (PTuple []) (kw_dict kw) [])
+    = construct_sig re_match e sig_order c kw.
+Proof. exact generated_init_is_construct_sig. Qed.
+
+Theorem C01_src_init_constants :
+  forall (re_match : N -> pystr -> bool) (e : env) (msg_of : pystr -> pyval -> exn -> pystr)
+         (bind_msg hook_msg : pystr) (repr_str : pystr -> pystr) (dumps : list pystr -> pystr)
+         (sig_order : kwargs -> kwargs) (c : classdef) (K kw : kwargs),
+    init_dom_k c K kw = true -> sig_order (bound_k c K kw) = bound_k c K kw ->
+    view c (Structure__init (init_heap_k c true K)
+              (model_world_k re_match e msg_of bind_msg hook_msg repr_str dumps sig_order c K) (PTuple []) (kw_dict kw) [])
+    = construct_k re_match e c K kw.
+Proof. exact generated_init_constants. Qed.
+
+Theorem C01_construct_k_without_constants : forall re_match e c kw, construct_k re_match e c [] kw = construct re_match e c kw.
+Proof. exact construct_k_nil. Qed.
+
+Theorem C01_construct_k_refuses_constant : forall re_match e c K kw n,
+    alist_has K n = true -> alist_has kw n = true -> is_ok (construct_k re_match e c K kw) = false.
+Proof. exact construct_k_refuses_constant. Qed.
+
+Print Assumptions C01_src_init_sig_order.
+Print Assumptions C01_src_init_constants.
+Print Assumptions C01_construct_k_without_constants.
+Print Assumptions C01_construct_k_refuses_constant.
